@@ -255,9 +255,8 @@ Definition convert_context (y : yctx) (is_builder : bool) (filename : str) : res
 Record ldoc := { ld_doc : ydoc; ld_file : str; ld_idx : nat; ld_included_by : option nat }.
 
 Definition finc := (str * option nat)%type.      (* FileInclude: file name, including document *)
-Definition finc_eqb (a b : finc) : bool :=
-  str_eqb (fst a) (fst b) &&
-  match snd a, snd b with Some x, Some y => Nat.eqb x y | None, None => true | _, _ => false end.
+(* after the C15/C17 fix the work list is keyed by the file name only: a file is loaded once *)
+Definition finc_eqb (a b : finc) : bool := str_eqb (fst a) (fst b).
 Definition finc_insert (x : finc) (l : list finc) : list finc := if existsb (finc_eqb x) l then l else l ++ [x].
 
 Definition path_join (a b : str) : str := path_push a b.
